@@ -128,24 +128,26 @@ func run(sc scenario) outcome {
 	n := sc.volume / (sc.lineLen + 1)
 	pad := strings.Repeat("x", sc.lineLen)
 	var progress int64
-	var maxLat int64
+	var maxLat, maxLatTicks int64
+	var canary int64
 	done := make(chan struct{})
 	go func() {
 		defer close(done)
 		for i := 0; i < n; i++ {
 			name := fmt.Sprintf("c06.%d.%d.%s", runSeq, i, pad)
 			line := []byte(name[:sc.lineLen-13] + " 1 1500000000")
+			c0 := atomic.LoadInt64(&canary)
 			t0 := time.Now()
 			tab.Dispatch(line)
 			if l := int64(time.Since(t0)); l > atomic.LoadInt64(&maxLat) {
 				atomic.StoreInt64(&maxLat, l)
+				atomic.StoreInt64(&maxLatTicks, atomic.LoadInt64(&canary)-c0) // how often the canary ran meanwhile
 			}
 			atomic.StoreInt64(&progress, int64(i+1))
 		}
 	}()
 	// canary: a goroutine that only sleeps 1 ms and counts.  If it does not advance either, the machine
 	// (not the relay) is starving the process, and the stall says nothing about the property.
-	var canary int64
 	stopCanary := make(chan struct{})
 	go func() {
 		for {
@@ -186,8 +188,14 @@ func run(sc scenario) outcome {
 	}
 	out.maxLatency = time.Duration(atomic.LoadInt64(&maxLat))
 	out.handed = int(atomic.LoadInt64(&progress))
-	if out.maxLatency > stallBound {
-		out.stalled = true
+	if out.maxLatency > stallBound && !out.starved {
+		// one hand-off took longer than the bound although the watchdog saw progress in every window: count it as a stall
+		// only if the canary kept running during that hand-off (>= 1 tick per 5 ms), i.e. the process did get CPU
+		if atomic.LoadInt64(&maxLatTicks) < int64(out.maxLatency/(5*time.Millisecond)) {
+			out.starved = true
+		} else {
+			out.stalled = true
+		}
 	}
 	if out.stalled || out.starved {
 		if e != nil {
